@@ -150,7 +150,18 @@ impl Check for C13 {
             return rep; // outside the property's domain (limit >= 1, duration > 0)
         }
         let d = sc.duration_ns;
-        let base: Vec<Dec> = run_history(sc, &sc.ops, None).into_iter().flatten().collect();
+        // a limiter that panics on some history takes the listener's lock (and with it every later connection) down
+        let _ = crate::alloc::take_panics();
+        let first = std::panic::catch_unwind(std::panic::AssertUnwindSafe(|| run_history(sc, &sc.ops, None)));
+        let base: Vec<Dec> = match first {
+            Ok(v) => v.into_iter().flatten().collect(),
+            Err(_) => {
+                let msg = crate::alloc::take_panics().first().cloned().unwrap_or_default().replace('\n', " ");
+                rep.runs = 1;
+                rep.violate("no_panic", format!("the limiter panicked on this history: {msg}"));
+                return rep;
+            }
+        };
         rep.runs = 1;
         rep.sim_ns = base.last().map(|x| x.t).unwrap_or(0);
         let mut th = Fnv::default();
